@@ -90,10 +90,10 @@ def stepFree (s : State) (id : Nat) : State × Res :=
   | none => (s, Res.skip)
   | some f =>
       if f.priv then
-        ({ s with frames := s.frames.filter (fun g => g.id ≠ id), died := s.died ++ [id],
+        ({ s with frames := s.frames.erase f, died := s.died ++ [id],
                   heap := (match f.blk with | Blk.heap b => s.heap.del b | _ => s.heap) }, Res.freed id)
       else
-        ({ s with frames := s.frames.filter (fun g => g.id ≠ id), died := s.died ++ [id], busy := false }, Res.freed id)
+        ({ s with frames := s.frames.erase f, died := s.died ++ [id], busy := false }, Res.freed id)
 
 /-- one step of thread `t`; a thread that is inside an operation can only continue it -/
 def step (s : State) (t : Nat) (a : Act) : State × Res :=
@@ -140,7 +140,7 @@ def anew (s : AState) (n : Nat) : AState × Nat :=
 
 def adel (s : AState) (a : Nat) : AState :=
   match s.live.find? (fun p => p.1 == a) with
-  | some p => { s with live := s.live.filter (fun q => q.1 ≠ a), cache := some p }
+  | some p => { s with live := s.live.filter (fun q => q.1 != a), cache := some p }
   | none => s
 
 def setPc (s : AState) (t : Nat) (p : Pc) : AState :=
@@ -170,8 +170,8 @@ def stepFree (s : AState) (id : Nat) : AState :=
   | none => s
   | some f =>
       if f.addr = s.ptr then
-        { s with frames := s.frames.filter (fun g => g.id ≠ id), busy := false }
-      else adel { s with frames := s.frames.filter (fun g => g.id ≠ id) } f.addr
+        { s with frames := s.frames.filter (fun g => g.id != id), busy := false }
+      else adel { s with frames := s.frames.filter (fun g => g.id != id) } f.addr
 
 def step (s : AState) (t : Nat) (a : Act) : AState :=
   match s.pc t with
